@@ -64,6 +64,30 @@ theorem addextproj_eq (d : R) (tw : Bool) (p q : Ext R) :
     ecmAddextproj d tw p q = (ecmAddext d tw p q).toProj := by
   simp only [ecmAddextproj, ecmAddext, ecmAddextAux, Ext.toProj]
 
+/-- the extended addition is not unified: on equal arguments it returns the zero quadruple (a = ±1,
+no hypothesis needed). `scalar64_chainmul` therefore returns `(0,0,0)` whenever a double-add step
+meets `2 Q = ± i P` — e.g. on points of order 4, or when a chain prefix `m` has `2 m ≡ ± i` modulo the
+order of `P`. -/
+theorem addext_self (d : R) (tw : Bool) (p : Ext R) : ecmAddext d tw p p = ⟨0, 0, 0, 0⟩ := by
+  obtain ⟨x, y, z, t⟩ := p
+  cases tw <;>
+  · simp only [ecmAddext, ecmAddextAux, Bool.false_eq_true, ↓reduceIte, Ext.mk.injEq]
+    exact ⟨by ring, by ring, by ring, by ring⟩
+
+/-- `params`: `(σ + 1)(3x + z) = 72 z` and `r (3x + z)² = 432 y z` when `(3x+z)²` is invertible -/
+theorem suyama_params_rel (inv : R → R) (a b gx gy : R) (pt : Pt R)
+    (hinv : ((pt.z + pt.x + (pt.x + pt.x)) * (pt.z + pt.x + (pt.x + pt.x))) *
+      inv ((pt.z + pt.x + (pt.x + pt.x)) * (pt.z + pt.x + (pt.x + pt.x))) = 1) :
+    ((suyamaParams inv a b gx gy pt).1 + 1) * (3 * pt.x + pt.z) = 72 * pt.z ∧
+    (suyamaParams inv a b gx gy pt).2 * ((3 * pt.x + pt.z) * (3 * pt.x + pt.z)) = 432 * (pt.y * pt.z) := by
+  obtain ⟨x, y, z⟩ := pt
+  simp only [suyamaParams] at hinv ⊢
+  push_cast
+  generalize inv ((z + x + (x + x)) * (z + x + (x + x))) = w at hinv ⊢
+  constructor
+  · linear_combination (72 * z) * hinv
+  · linear_combination (432 * y * z) * hinv
+
 /-! ### curve constructors -/
 
 /-- `twisted_from_point`: the generator lies on the curve with the `d` it computes (when `x²y²` is
